@@ -23,6 +23,7 @@ class PeerBase:
         self.socks: list = []
         self.bufs: dict = {}
         self.n = 0                       # transmissions received so far
+        self.default_hops = 0            # every send is deferred by this many loop iterations (arrival phase)
 
     def bind(self, loop):
         self.loop = loop
@@ -74,9 +75,12 @@ class PeerBase:
         return rc.split_tcp_stream(buf)
 
     # -- sending helpers --------------------------------------------------------------------------
-    def send(self, s, data: bytes, delay: float = 0.0, n: int = 0, piece: int = 0, hops: int = 0):
+    def send(self, s, data: bytes, delay: float = 0.0, n: int = 0, piece: int = 0, hops: int = None):
         """send `data` after `delay` virtual seconds and `hops` further loop iterations (arrival phase relative to the
         client's own callbacks in the same instant is arbitrary on a real network, so scenarios may sweep it)"""
+        if hops is None:
+            hops = self.default_hops
+
         def go(h=hops):
             if h > 0:
                 self.loop.call_soon(go, h - 1)
@@ -91,6 +95,8 @@ class PeerBase:
                 self.loop.ev("psend_fail", self.owner, n, piece, e.errno)
         if delay > 0:
             self.loop.call_later(delay, go)
+        elif hops > 0:
+            self.loop.call_soon(go, hops - 1)
         else:
             go()
 
